@@ -5,6 +5,7 @@ CONSTANTS
  MaxFaults = 1
  MaxCrashes = 1
  MaxIdxLoss = 0
+ SyncFlush = TRUE
  InlineAt = 0
  Interval = 2
  MBs = {80}
